@@ -141,6 +141,8 @@ def canon_prove(c, name, goal, int_hyps, points, funcs, real_hyps, extra_facts=(
         g = z3.substitute(g, *sub)
         hs = [z3.substitute(h, *sub) for h in hs] + pos
     g, hs = z3.simplify(g), [z3.simplify(h) for h in hs]
+    if not linear_in and linear_entailment(c, name, g, hs, int_hyps):
+        return True
     if not linear_in:
         return _reduce_and_prove(c, name, g, int_hyps, hs)
     # both sides are linear in the sample values (and slopes): the identity is proved coefficient by coefficient, and the
@@ -232,12 +234,170 @@ def _reduce_and_prove(c, name, g, int_hyps, hs):
     try:
         sub = z3.Then("simplify", "propagate-values", "solve-eqs", "simplify")(goal)
         reduced = z3.Or(*[sg.as_expr() for sg in sub]) if len(sub) else z3.BoolVal(False)
+        if _coefficientwise(c, name, sub):
+            return True
         if prove_with(c, name, z3.Not(reduced), []):
             return True
         c.obligations.pop()          # fall back to the unreduced form below
     except z3.Z3Exception:
         pass
     return prove_with(c, name, g0, list(int_hyps) + list(hs0))
+
+
+def linear_entailment(c, name, goal, hyps, int_hyps):
+    """goal and some hypotheses are equations linear in the values (sample values, slopes) with coefficients that are rational
+    functions of the knot widths: the goal is shown to be a combination of the hypothesis equations by elimination - every
+    step is a rational identity (or a non-vanishing pivot) in the widths only, which real arithmetic decides reliably.
+    Returns False (and records nothing) when the problem does not have this form."""
+    from pydv.core import discharge
+    if not (z3.is_eq(goal) and z3.is_real(goal.arg(0))):
+        return False
+    eqs = [h for h in hyps if z3.is_eq(h) and z3.is_real(h.arg(0))]
+    side = [h for h in hyps if not (z3.is_eq(h) and z3.is_real(h.arg(0)))] + list(int_hyps)
+    allc = set()
+    for e in eqs + [goal]:
+        allc |= _consts(e)
+    vals = sorted({v for v in allc if z3.is_real(v) and not v.decl().name().startswith(("width", "x@"))}, key=lambda v: v.decl().name())
+    if not vals:
+        return False
+    rows = []
+    for e in eqs + [goal]:
+        d = e.arg(0) - e.arg(1)
+        if not is_linear(d, vals):
+            if e is goal:
+                return False
+            continue            # a hypothesis of another form is not used
+        rows.append({v.get_id(): z3.simplify(z3.substitute(d, *[(w, z3.RealVal(1 if w.eq(v) else 0)) for w in vals])) for v in vals})
+    g, hrows = rows[-1], rows[:-1]
+    zero = z3.RealVal(0)
+    norm_cache = {}
+
+    def norm(e):
+        """(numerator polynomial in sum-of-monomials form, denominator) of the rational function e"""
+        k = e.get_id()
+        if k not in norm_cache:
+            n_, d_ = to_fraction(e)
+            norm_cache[k] = (z3.simplify(n_, som=True), d_)
+        return norm_cache[k]
+
+    def den_ok(d_):
+        return z3.is_rational_value(d_) or discharge(side, d_ != 0, 4000)[0] == "proved"
+
+    def nonzero(e):
+        n_, d_ = norm(e)
+        if z3.is_rational_value(n_):
+            return n_.numerator_as_long() != 0 and den_ok(d_)
+        return discharge(side, n_ != 0, 4000)[0] == "proved" and den_ok(d_)
+
+    def is_zero(e):
+        n_, d_ = norm(e)
+        return z3.is_rational_value(n_) and n_.numerator_as_long() == 0
+    work = [dict(r) for r in hrows]
+    while work:
+        r = work.pop(0)
+        piv = None
+        for v in vals:
+            if not is_zero(r[v.get_id()]) and nonzero(r[v.get_id()]):
+                piv = v.get_id()
+                break
+        if piv is None:
+            continue            # no usable pivot: the row is dropped (using fewer hypotheses is sound)
+        for t in work + [g]:
+            if is_zero(t[piv]):
+                t[piv] = zero
+                continue
+            tp = t[piv]
+            for v in vals:      # fraction-free step: t := r[piv] * t - t[piv] * r   (r[piv] != 0, so t == 0 is unchanged)
+                k = v.get_id()
+                t[k] = zero if k == piv else r[piv] * t[k] - tp * r[k]
+    n0 = len(c.obligations)
+    for v in vals:
+        e = g[v.get_id()]
+        n_, d_ = norm(e)
+        if not den_ok(d_):
+            del c.obligations[n0:]
+            return False
+        if not prove_with(c, name, n_ == 0, side):
+            del c.obligations[n0:]
+            return False
+    return True
+
+
+def to_fraction(e):
+    """numerator and denominator (division-free z3 terms) of a term built from +, -, *, / and integer powers"""
+    cache = {}
+    one = z3.RealVal(1)
+
+    def go(t):
+        k = t.get_id()
+        if k in cache:
+            return cache[k]
+        kind = t.decl().kind() if z3.is_app(t) else None
+        ch = t.children() if z3.is_app(t) else []
+        if kind == z3.Z3_OP_ADD or kind == z3.Z3_OP_SUB:
+            n_, d_ = go(ch[0])
+            for x in ch[1:]:
+                n2, d2 = go(x)
+                if kind == z3.Z3_OP_SUB:
+                    n2 = -n2
+                if z3.eq(d_, d2):
+                    n_ = n_ + n2
+                else:
+                    n_, d_ = n_ * d2 + n2 * d_, d_ * d2
+            r = (n_, d_)
+        elif kind == z3.Z3_OP_MUL:
+            n_, d_ = one, one
+            for x in ch:
+                n2, d2 = go(x)
+                n_, d_ = n_ * n2, (d_ * d2 if not z3.eq(d2, one) else d_)
+            r = (n_, d_)
+        elif kind == z3.Z3_OP_DIV:
+            na, da = go(ch[0])
+            nb, db = go(ch[1])
+            r = (na * db, da * nb)
+        elif kind == z3.Z3_OP_UMINUS:
+            n_, d_ = go(ch[0])
+            r = (-n_, d_)
+        elif kind == z3.Z3_OP_POWER and z3.is_rational_value(ch[1]) and ch[1].denominator_as_long() == 1 and ch[1].numerator_as_long() >= 0:
+            n_, d_ = go(ch[0])
+            p = ch[1].numerator_as_long()
+            rn, rd = one, one
+            for _ in range(p):
+                rn, rd = rn * n_, rd * d_
+            r = (rn, rd)
+        elif kind == z3.Z3_OP_TO_REAL:
+            r = (t, one)
+        else:
+            r = (t, one)
+        r = (z3.simplify(r[0]), z3.simplify(r[1]))
+        cache[k] = r
+        return r
+    return go(e)
+
+
+def _coefficientwise(c, name, subgoals):
+    """the reduced problem is  side conditions and not (a == b)  with a - b linear in the remaining values (everything but
+    the knot positions and widths): a == b is proved coefficient by coefficient - each a rational identity in the widths.
+    Returns False (nothing recorded) when the problem does not have that form or a coefficient is not proved."""
+    if len(subgoals) != 1:
+        return False
+    conj = list(subgoals[0])
+    neq = [f for f in conj if z3.is_not(f) and z3.is_eq(f.arg(0)) and z3.is_real(f.arg(0).arg(0))]
+    if len(neq) != 1:
+        return False
+    side = [f for f in conj if f is not neq[0]]
+    a, b = neq[0].arg(0).arg(0), neq[0].arg(0).arg(1)
+    vals = sorted({v for v in _consts(a - b) if z3.is_real(v) and not v.decl().name().startswith(("width", "x@"))},
+                  key=lambda v: v.decl().name())
+    if not vals or not is_linear(a - b, vals):
+        return False
+    n0 = len(c.obligations)
+    for v in vals:
+        sub = [(w, z3.RealVal(1 if w.eq(v) else 0)) for w in vals]
+        if not prove_with(c, name, z3.simplify(z3.substitute(a, *sub)) == z3.simplify(z3.substitute(b, *sub)), side):
+            del c.obligations[n0:]
+            return False
+    return True
 
 
 def ground_apps(terms, prefixes=("post_", "pre_", "solved", "mm", "sum", "es")):
